@@ -24,15 +24,15 @@ Definition hex_digits (c : N) : text := map hex_char (rev (hex_rev 6 c)).
 
 (* how one character is written inside a string literal *)
 Definition escape_char (c : N) : text :=
-  if c =? 92 then [92; 92]                                         (* \\ *)
-  else if c =? 34 then [92; 34]                                    (* \" *)
-  else if c =? 10 then [92; 110]                                   (* \n *)
-  else if c =? 9 then [92; 116]                                    (* \t *)
-  else if c =? 13 then [92; 114]                                   (* \r *)
-  else if c =? 0 then [92; 48]                                     (* \0 *)
-  else if (c <? 32) || (c =? 127) then [92; 120; hex_char (c / 16); hex_char (c mod 16)]   (* \xHH *)
+  if c =? 92 then [92; 92]                                         (* backslash backslash *)
+  else if c =? 34 then [92; 34]                                    (* backslash quote *)
+  else if c =? 10 then [92; 110]                                   (* backslash n *)
+  else if c =? 9 then [92; 116]                                    (* backslash t *)
+  else if c =? 13 then [92; 114]                                   (* backslash r *)
+  else if c =? 0 then [92; 48]                                     (* backslash 0 *)
+  else if (c <? 32) || (c =? 127) then [92; 120; hex_char (c / 16); hex_char (c mod 16)]   (* backslash x H H *)
   else if c <? 128 then [c]                                        (* printable ASCII: literally *)
-  else 92 :: 117 :: 123 :: hex_digits c ++ [125].                  (* \u{H...} *)
+  else 92 :: 117 :: 123 :: hex_digits c ++ [125].                  (* backslash u { H... } *)
 
 Definition escape (s : text) : text := flat_map escape_char s.
 
